@@ -280,16 +280,30 @@ def overbuild_monitor(case, real):
                 if j is None or D in forced or ran.count(D) != 1 or before.get(D) is None:
                     continue
                 files, targets, always = full_closure(case, before, progs, D)
+                def stamped_same(E):
+                    do = next((c for c in case.rules[E] if before.get(c) is not None), None)
+                    sc = progs.get((int(before[do]) - 3) // 2, {}) if do is not None and before[do].isdigit() else {}
+                    return sc.get("stamp") == 1 and snaps[j]["fs"].get(E) is not None and snaps[j]["fs"].get(E) == s["fs"].get(E)
+                # C02, direct form: the script of D ran although none of the files it DIRECTLY declares changed since its
+                # last successful build — every direct dependency is either untouched and not rebuilt, or a checksummed
+                # target rebuilt with the same content.  (What changed lies deeper, behind a checksummed target that
+                # absorbed it.)
+                do_d = next((c for c in case.rules[D] if before.get(c) is not None), None)
+                sc = progs.get((int(before[do_d]) - 3) // 2, {}) if do_d is not None and before[do_d].isdigit() else None
+                direct = None
+                if not (always or sc is None or sc.get("cond") or sc.get("ifcreate") or sc.get("failIfOdd") is not None):
+                    direct = set(y for c in sc.get("ifchange", []) for y in c) | set(case.rules[D])
+                    if any(last_touched.get(x, -1) > j for x in direct):
+                        direct = None
+                rebuilt = [] if direct is None else [E for E in direct if E in case.rules and any(j < kk <= i for kk in ran_at.get(E, []) + ([i] if E in ran else []))]
+                if rebuilt and all(stamped_same(E) for E in rebuilt) and all(snaps[j]["fs"].get(x) == s["fs"].get(x) for x in direct):
+                    out.append(("C02", "nested-checksum-overbuild: target %s (%s) was rebuilt by %r although every file it declares is unchanged since its last successful build (op %d); its checksummed dependencies %s were rebuilt with the same content" % (D, case.names[D], o, j, sorted(rebuilt)), i))
                 if always or any(last_touched.get(x, -1) > j for x in files):
                     continue
                 others = [E for E in targets if E != D and any(j < kk <= i for kk in ran_at.get(E, []) + ([i] if E in ran else []))]
                 if not others:
                     out.append(("C02", "target %s (%s) was rebuilt by %r although nothing in its closure was touched or rebuilt since its last successful build (op %d)" % (D, case.names[D], o, j), i))
                     continue
-                def stamped_same(E):
-                    do = next((c for c in case.rules[E] if before.get(c) is not None), None)
-                    sc = progs.get((int(before[do]) - 3) // 2, {}) if do is not None and before[do].isdigit() else {}
-                    return sc.get("stamp") == 1 and snaps[j]["fs"].get(E) is not None and snaps[j]["fs"].get(E) == s["fs"].get(E)
                 # every rebuilt closure member is either checksummed with unchanged content, or depends only on such ones
                 def quiet(E, seen=()):
                     if E in seen:
@@ -362,6 +376,18 @@ def corpus_cases(prop):
     return out
 
 
+def nested_overbuild_matcher(listed_under, inner=None):
+    """Known-finding matcher for the recorded over-build behind nested checksummed targets (known_findings.json, id
+    nested-checksum-overbuild, listed under `listed_under`), combined with another matcher."""
+    kf = [k for k in known_findings(listed_under) if k.get("id") == "nested-checksum-overbuild" and k.get("status") == "known"]
+
+    def matcher(case, mon):
+        if kf and mon[0] == "C02" and mon[1].startswith("nested-checksum-overbuild:"):
+            return "a target whose checksummed dependency was rebuilt with the SAME checksum is rebuilt all the same when what changed lies behind a second checksummed target below it (the re-decision after the out-of-band rebuild may not go out of band again, builder.rs BuildJob::start NeedTargets + no_oob)"
+        return inner(case, mon) if inner else None
+    return matcher
+
+
 def run_property(ctx, prop, features, ncases, want, extra_cases=(), known_matcher=None):
     rng = random.Random(ctx["seed"] * 7919 + int(prop[1:]))
     viol = ctx.setdefault("violations", [])
@@ -396,22 +422,26 @@ def run_property(ctx, prop, features, ncases, want, extra_cases=(), known_matche
         if nontriv:
             distinct.add(c.request(defects))
         mon = monitors(c, r, want)
-        if mon:
-            pid, msg, opi = mon[0]
-            kf = known_matcher(c, mon[0]) if known_matcher else None
+        for entry in mon:
+            pid, msg, opi = entry
+            kf = known_matcher(c, entry) if known_matcher else None
             if kf:
+                # a listed finding, identified by what fails and where; other failures of the same history are still examined
                 if kf not in known_hit:
                     known_hit.append(kf)
-            else:
-                def pred(cc):
-                    rr = depsgen.run_real(cc)
-                    return any(x[0] == pid for x in monitors(cc, rr, want))
-                small = shrink(c, pred)
-                rr = depsgen.run_real(small)
-                mm = [x for x in monitors(small, rr, want) if x[0] == pid]
-                p = write_replay(prop, "impl-%d" % ci, dict(kind="impl-monitor", property=pid, message=(mm or [mon[0]])[0][1], case=small.to_json(), names=small.names, real=rr))
-                viol.append(Violation(prop if pid != "C09" else prop, p, (mm or [mon[0]])[0][1]))
-                break
+                continue
+            def unlisted(cc, rr):
+                return [x for x in monitors(cc, rr, want) if x[0] == pid and not (known_matcher and known_matcher(cc, x))]
+            def pred(cc):
+                return bool(unlisted(cc, depsgen.run_real(cc)))
+            small = shrink(c, pred)
+            rr = depsgen.run_real(small)
+            mm = unlisted(small, rr)
+            p = write_replay(prop, "impl-%d" % ci, dict(kind="impl-monitor", property=pid, message=(mm or [entry])[0][1], case=small.to_json(), names=small.names, real=rr))
+            viol.append(Violation(prop if pid != "C09" else prop, p, (mm or [entry])[0][1]))
+            break
+        if viol:
+            break
         if m != r and first_corr is None:
             j = next(j for j, (a, b) in enumerate(zip(m, r)) if a != b)
             first_corr = (ci, c, j, m[j], r[j])
